@@ -162,37 +162,43 @@ def replay_gate(eng, vc, spec, consts, int_names, base_query, max_models=6, neut
     real_names = [n for n, c in consts.items() if z3.is_real(c)]
     for cand in vc.info.get("candidates", []):
         if len(real_names) < len(cand):
-            break
-        pin = [consts[n] == v for n, v in zip(real_names, cand)]
-        if eng.check(base_query, *pin, timeout=min(eng.timeout, 3000)) == "sat":
-            m2 = eng.last.model()
-            try:
-                fr = model_inputs(m2, consts)
-                enc, val = concretise(fr, set(int_names) | {n for n, v in zip(real_names, cand) if isinstance(v, int)})
-                outs = [decode_out(o) for o in run_concrete(spec, enc)]
-                vc.enc = enc
-                why = vc.judge(val, outs)
-                if why:
-                    attributed = None
-                    for fid in neutralisers:
-                        try:
-                            outs2 = [decode_out(o) for o in run_concrete(spec, enc, neutralise=[fid])]
-                            if not vc.judge(val, outs2):
-                                attributed = fid
-                                break
-                        except Exception:  # noqa
-                            pass
-                    return "violation", {"attributed": attributed, "inputs": enc, "inputs_rational": {k: str(v) for k, v in fr.items()},
-                                         "observed": [{k: v for k, v in o.items() if k != "mp"} for o in outs], "why": why, "attempts": 0}
-            except Exception:  # noqa
-                pass
+            continue
+        # tried directly on the real code (the judge decides; consistency with this path's condition is not required for a real witness)
+        try:
+            fr = model_inputs(s_model, consts)
+            for n, v in zip(real_names, cand):
+                fr[n] = fractions.Fraction(v)
+            enc, val = concretise(fr, set(int_names) | {n for n, v in zip(real_names, cand) if isinstance(v, int)})
+            outs = [decode_out(o) for o in run_concrete(spec, enc)]
+            vc.enc = enc
+            why = vc.judge(val, outs)
+            if why:
+                attributed = None
+                for fid in neutralisers:
+                    try:
+                        outs2 = [decode_out(o) for o in run_concrete(spec, enc, neutralise=[fid])]
+                        if not vc.judge(val, outs2):
+                            attributed = fid
+                            break
+                    except Exception:  # noqa
+                        pass
+                return "violation", {"attributed": attributed, "inputs": enc, "inputs_rational": {k: str(v) for k, v in fr.items()},
+                                     "observed": [{k: v for k, v in o.items() if k != "mp"} for o in outs], "why": why, "attempts": 0,
+                                     "found_by": "candidate assignment supplied by the obligation"}
+        except Exception:  # noqa
+            pass
     for attempt in range(max_models):
         try:
             fr = model_inputs(s_model, consts)
         except Exception as e:  # noqa
             return "unreproduced", {"why": f"model extraction: {e}"}
-        enc, val = concretise(fr, int_names)
         try:
+            enc, val = concretise(fr, int_names)
+        except (OverflowError, ValueError):
+            enc, val = None, None
+        try:
+            if enc is None:
+                raise ValueError("model value outside the double range")
             outs = [decode_out(o) for o in run_concrete(spec, enc)]
             vc.enc = enc
             why = vc.judge(val, outs)
